@@ -53,6 +53,16 @@ CHECKS["C11"] = dict(technique="model-based (stateful) property-based testing: g
                      note="Trusted: the library's group operations / pairing as lower layer (decided by C01/C05/C06); documented input domain for attribute lists.",
                      ref="DESIGN.md section 4, C11")
 
+CHECKS["C12"] = dict(technique="model-based property-based testing: generated histories plus one negative probe (single-slot pattern mismatch, hidden-slot filling attempt through each entry point, single-component ciphertext tampering); decryption succeeds iff effective patterns agree",
+                     note="Trusted: as C11; a negative expectation can be wrong with probability ~2^-255.",
+                     ref="DESIGN.md section 4, C12")
+CHECKS["C13"] = dict(technique="model-based property-based testing: generated keys, extension lists, messages and single-field perturbations; verify <=> (list, message mod r) unchanged; direct vs precomputed forms agree",
+                     note="Trusted: as C11; only parameters with signature support.",
+                     ref="DESIGN.md section 4, C13")
+CHECKS["C14"] = dict(technique="metamorphic property-based testing: chains of generated list edits; incremental result == recomputation from scratch (group-element equality / component-wise key equality); precomputed vs direct forms interchangeable",
+                     note="Trusted: library group equality; lists for adjust_nondelegable are interpreted without the omit-all flag.",
+                     ref="DESIGN.md section 4, C14")
+
 PENDING = {}
 
 
